@@ -15,6 +15,7 @@ Sourcecode of inspiration:
 """
 
 import os
+import re
 import logging
 import operator
 import time
@@ -636,6 +637,13 @@ class CPreProcessor:
 
         total_text = lhs.val + rhs.val
 
+        # A number can be glued with anything that keeps it a preprocessing
+        # number, this need not be a valid constant (for example 3w).
+        if lhs.typ == "NUMBER" and PP_NUMBER.fullmatch(total_text):
+            return CToken(
+                "NUMBER", total_text, lhs.space, lhs.first, lhs.loc
+            )
+
         # Invoke the lexer again on glued text to produce tokens:
         tokens = lex_text(total_text, self.coptions)
         if len(tokens) == 1:
@@ -1204,6 +1212,7 @@ class CPreProcessor:
             raise NotImplementedError(str(expr))
 
 
+PP_NUMBER = re.compile(r"\.?[0-9]([eEpP][+-]|[A-Za-z_0-9.])*")
 _INTMAX_MAX = (1 << 63) - 1
 _UINTMAX_MAX = (1 << 64) - 1
 
